@@ -98,7 +98,7 @@ def do_runall(only=None):
     scratch = '/var/tmp/omega_seed_scratch'
     bad = []
     for name in sorted(os.listdir(base)):
-        if only and not name.startswith(only):
+        if only and not any(name.startswith(o) for o in only.split(',')):
             continue
         d = os.path.join(base, name)
         m = json.load(open(f'{d}/meta.json'))
@@ -110,7 +110,13 @@ def do_runall(only=None):
         sh(f'rm -rf {scratch}; mkdir -p {scratch}')
         rc, out = sh(f'git -C /repo archive HEAD | tar -x -C {scratch}')
         rc, out = sh(f'git apply {d}/patch.diff', cwd=scratch)
-        assert rc == 0, (name, out)
+        if rc != 0:
+            print(name, 'PATCH DOES NOT APPLY TO HEAD', flush=True)
+            bad.append((name, 'apply', rc))
+            continue
+        if m.get('out_of_scope'):
+            print(name, 'out of scope:', m['out_of_scope'][:60], flush=True)
+            continue
         for c in checks[:1]:
             rc, out = sh(f'./check {c} --tier quick --fail-fast', cwd=VERIF,
                          env=dict(VERIF_NO_EVIDENCE='1', OMEGA_SRC=scratch))
